@@ -11,7 +11,7 @@ for d in seeded/*/; do
   if [ $# -gt 0 ]; then case " $* " in *" $id "*) ;; *) continue;; esac; fi
   prop=$(echo "$id" | cut -c1-3)
   git -C "${VERIF_REPO_SRC:-/repo}" worktree add -q "$WT" HEAD || exit 2
-  if git -C "$WT" apply "$HERE/$d/patch.diff" 2>/dev/null; then
+  if git -C "$WT" apply "$HERE/$d/patch.diff" 2>/dev/null || git -C "$WT" apply --3way "$HERE/$d/patch.diff" >/dev/null 2>&1; then
     out=$(VERIF_REPO="$WT" VERIF_EVIDENCE_DIR="$WT.ev" timeout 1800 bin/vcheck "$prop" --tier quick 2>&1)
     rc=$?
     v=$(echo "$out" | grep -c '^VIOLATION')
